@@ -260,6 +260,14 @@ def main(argv=None):
     ap.add_argument("--only", action="append")
     a = ap.parse_args(argv)
     res = run_catalogue(a.property, a.repo, a.seed, a.only, log=lambda s: print(s, flush=True))
+    if not a.only:
+        # the last full run per property is kept next to the seeded changes (which check caught what, first reports)
+        os.makedirs(SEEDED, exist_ok=True)
+        with open(os.path.join(SEEDED, "RESULTS-%s.json" % a.property), "w") as f:
+            json.dump({"property": a.property, "seed": a.seed,
+                       "summary": {k: v for k, v in res.items() if k != "details"},
+                       "each": [{k: r.get(k) for k in ("id", "source", "status", "wall_s", "note", "first_reports")}
+                                for r in res["details"]]}, f, indent=1)
     print(json.dumps({k: v for k, v in res.items() if k != "details"}, indent=1))
     for r in res["details"]:
         if r["status"] != "caught":
